@@ -34,6 +34,10 @@ class BaseGotranODECodePrinter(StrPrinter):
     def _print_im(self, expr):
         return self._print(sympy.S.Zero)
 
+    def _print_arg(self, expr):
+        # The argument (phase) of a real number is 0 or pi
+        return f"Conditional(Lt({self._print(expr.args[0])}, 0), pi, 0)"
+
     def _print_Relational(self, expr):
         # v = super()._print_Relational(expr)
         lhs = self._print(expr.lhs)
